@@ -637,11 +637,25 @@ def gen_C11(r):
             ops.append({"op": "git", "action": "commit", "name": "c%d" % (k + 1)})
             if r.random() < 0.3:
                 ops.append({"op": "git", "action": "dirty", "value": True})
+    # results produced in another checkout of the same project at the very same time (version ids are
+    # only unique per index), merged in through an archive
+    run_idx = [j for j, o in enumerate(ops) if o["op"] == "run"]
+    if exps and r.random() < 0.3:
+        ops.append({"op": "foreign", "clock_of_step": r.choice(run_idx), "targets": r.sample(exps, r.randint(1, min(2, len(exps)))),
+                    "out": "F0"})
+        ops.append({"op": "restore", "archive": "F0", "cwd": ""})
+        if r.random() < 0.8:
+            ops.append(run_op(0.8))
     target = None
     c = r.random()
     if c < 0.45:
         target = r.choice(list(tasks))
     out = "A0" if r.random() < 0.8 else None
+    if r.random() < 0.2:
+        # an earlier archive command that was killed (its temporary index may stay behind)
+        scn["knobs"]["mon"] = True
+        ops.append({"op": "archive", "target": r.choice([None] + exps) if exps else None, "out": "K0",
+                    "flags": {"latest": r.random() < 0.3}, "cwd": "", "kill": int(10 ** r.uniform(2.2, 3.3))})
     ops.append({"op": "archive", "target": target, "out": out, "flags": {"latest": r.random() < 0.4},
                 "cwd": r.choice(["", ""] + pk)})
     ops.append({"op": "clean", "cwd": ""} if out and r.random() < 0.6 else {"op": "wipe"})
@@ -791,8 +805,13 @@ def gen_C17(r):
         if p:
             cwd_pool.append("cond-out/" + p)
     ops = []
-    if not scn["disable_git"] and r.random() < 0.4:
+    use_git = not scn["disable_git"] and r.random() < 0.5
+    if use_git:
         ops += [{"op": "git", "action": "init"}, {"op": "git", "action": "commit", "name": "c0"}]
+        if r.random() < 0.5:
+            ops.append({"op": "git", "action": "nested", "dir": "nocond/deeper"})
+            cwd_pool += ["nocond/deeper"] * 3
+    cwd_pool += ["@expdir:%d" % r.randrange(6), "@expdir:%d" % r.randrange(6), "@insideexp:%d" % r.randrange(6)]
     have_arch = None
     for k in range(r.randint(2, 8)):
         c = r.random()
@@ -802,6 +821,14 @@ def gen_C17(r):
                          files=True, cwds=(cwd,), target=r.choice(list(tasks)) if r.random() < 0.5 else None)
             if r.random() < 0.15:
                 op["flags"]["check"] = True
+            if use_git and r.random() < 0.35:
+                op["flags"].pop("again", None)
+                if r.random() < 0.5:
+                    op["flags"]["this_commit"] = True
+                else:
+                    op["flags"]["at_least"] = r.choice(["HEAD", "main", sim_hash("c0")])
+            if use_git and r.random() < 0.2:
+                ops.append({"op": "git", "action": "commit", "name": "c%d" % (k + 1)})
         elif c < 0.55:
             op = {"op": "where", "target": r.choice(list(tasks)),
                   "flags": {"project": r.random() < 0.4, "nonexist": r.random() < 0.3}, "cwd": cwd}
